@@ -80,7 +80,6 @@ Definition enc_outcome (x : outcome) : sexp :=
   match x with
   | ORet None => SL [SA "ret"; SA "none"]
   | ORet (Some f) => SL [SA "ret"; SL (enc_forest f)]
-  | OCyclic => SL [SA "cyclic"]
   | ORaise AKey => SL [SA "raise"; SA "ekey"]
   | ORaise AOther => SL [SA "raise"; SA "eother"]
   | ORaise ANeverDone => SL [SA "raise"; SA "never-done"]
